@@ -133,6 +133,21 @@ class ElemRef:
         self.v.items[self.i] = x
 
 
+class MapRef:
+    __slots__ = ("m", "k")
+
+    def __init__(self, m, k):
+        self.m = m
+        self.k = k
+
+    def get(self):
+        return self.m.d[self.k]
+
+    def set(self, v):
+        self.m.d[self.k] = v
+        self.m.touch()
+
+
 class Iter:
     """std::vector iterator: (vector, index)."""
     def __init__(self, v, i):
@@ -143,10 +158,29 @@ class Iter:
         return "Iter(%d/%d)" % (self.i, len(self.v.items))
 
 
+class SetVal:
+    """std::set with concrete elements."""
+    def __init__(self, items=None):
+        self.items = set(items or ())
+
+    def __repr__(self):
+        return "Set%r" % (sorted(self.items, key=repr),)
+
+
 class MapVal:
-    """std::map with concrete keys."""
-    def __init__(self, d=None):
+    """std::map with concrete keys (iteration in key order over a snapshot that is shared by begin()/end())."""
+    def __init__(self, d=None, vtype=None):
         self.d = d if d is not None else {}
+        self.vtype = vtype
+        self._snap = None
+
+    def snapshot(self):
+        if self._snap is None or len(self._snap.items) != len(self.d):
+            self._snap = Vec([Obj("std::pair", {"first": k, "second": self.d[k]}) for k in sorted(self.d)])
+        return self._snap
+
+    def touch(self):
+        self._snap = None
 
     def __repr__(self):
         return "Map%r" % (self.d,)
@@ -401,14 +435,26 @@ class Interp:
             t = f["t"]
             if f["sk"] == "record":
                 o.f[f["name"]] = self.default_value(t)
+            elif f["sk"] == "array":
+                import re as _re
+                m_ = _re.match(r"^(.*)\[(\d+)\]$", t)
+                if m_:
+                    o.f[f["name"]] = Vec([self.default_value(m_.group(1).strip()) for _ in range(int(m_.group(2)))], m_.group(1).strip())
+                else:
+                    o.f[f["name"]] = UNINIT
             else:
                 o.f[f["name"]] = UNINIT
         return o
 
     def default_value(self, t):
         t = t.replace("const ", "").strip()
-        if t.startswith("std::vector<"):
+        if t.startswith("std::vector<") or t.startswith("std::list<"):
             return Vec([], elem=_first_targ(t))
+        if t.startswith("std::map<"):
+            targs = t[t.find("<") + 1:]
+            return MapVal(vtype=_second_targ(t))
+        if t.startswith("std::set<"):
+            return SetVal()
         if t.startswith("std::basic_ostringstream") or t.startswith("std::basic_ostream") or t.startswith("std::basic_stringstream"):
             return StreamVal()
         if t.startswith("std::"):
@@ -697,8 +743,15 @@ class Interp:
             raise Unsupported("array subscript on %r" % (b,))
         if k == "CXXOperatorCallExpr" and n.get("op") == "[]":
             callee = self.prog.by_key.get(n.get("callee"))
-            b = self.ev(n["ch"][1], env)
+            b = self.lv(n["ch"][1], env).get() if _strip(n["ch"][1]).get("lv") else self.ev(n["ch"][1], env)
             i = self.ev(n["ch"][2], env)
+            if isinstance(b, MapVal):
+                if isinstance(i, bool):
+                    i = int(i)
+                if i not in b.d:
+                    b.d[i] = self.default_value(b.vtype) if b.vtype else UNINIT
+                    b.touch()
+                return MapRef(b, i)
             if isinstance(b, Vec):
                 if not isinstance(i, int):
                     raise Unsupported("symbolic index")
@@ -998,7 +1051,7 @@ class Interp:
     def e_CXXConstructExpr(self, n, env):
         cname = n.get("cname", "")
         args = n.get("ch", [])
-        if cname.startswith("std::vector"):
+        if cname.startswith("std::vector") or cname.startswith("std::list"):
             elem = _first_targ(n.get("t", ""))
             if not args:
                 return Vec([], elem)
@@ -1045,7 +1098,7 @@ class Interp:
                 o.f["first"] = self.ev(args[0], env)
                 o.f["second"] = self.ev(args[1], env)
             return o
-        if cname.startswith("__gnu_cxx::__normal_iterator"):
+        if cname.startswith("__gnu_cxx::__normal_iterator") or cname.startswith("std::_List_") or cname.startswith("std::_Rb_tree_"):
             if args:
                 v = self.ev(args[0], env)
                 if isinstance(v, Iter):
@@ -1298,10 +1351,33 @@ class Interp:
                 return recv.d[k]
             if meth == "count":
                 return 1 if self.ev(args[0], env) in recv.d else 0
+            if meth in ("begin", "cbegin"):
+                return Iter(recv.snapshot(), 0)
+            if meth in ("end", "cend"):
+                sn = recv.snapshot()
+                return Iter(sn, len(sn.items))
+            if meth == "erase":
+                recv.d.pop(self.ev(args[0], env), None)
+                recv.touch()
+                return 1
+            if meth == "clear":
+                recv.d.clear()
+                recv.touch()
+                return None
             if meth == "size":
                 return len(recv.d)
             if meth == "empty":
                 return not recv.d
+        if isinstance(recv, SetVal):
+            if meth == "count":
+                return 1 if self.ev(args[0], env) in recv.items else 0
+            if meth == "insert":
+                recv.items.add(self.ev(args[0], env))
+                return None
+            if meth == "empty":
+                return not recv.items
+            if meth == "size":
+                return len(recv.items)
         if isinstance(recv, StreamVal):
             if meth == "str":
                 return recv
@@ -1312,7 +1388,11 @@ class Interp:
         raise Unsupported("std member %s on %r" % (cname, recv))
 
     def std_operator(self, n, op, cname, args, env, want_ref):
-        if cname.startswith("__gnu_cxx::") or "__normal_iterator" in cname:
+        is_iter_op = False
+        if op in ("!=", "==", "<") and len(args) == 2 and ("iterator" in _strip(args[0]).get("t", "") or "iterator" in _strip(args[1]).get("t", "")):
+            is_iter_op = True
+        if is_iter_op or cname.startswith("__gnu_cxx::") or "__normal_iterator" in cname or "_List_iterator" in cname or "_List_const_iterator" in cname \
+                or "_Rb_tree_iterator" in cname or "_Rb_tree_const_iterator" in cname:
             if op in ("++", "--"):
                 ref = self.lv(args[0], env)
                 it = ref.get()
@@ -1347,6 +1427,14 @@ class Interp:
         if op == "[]":
             b = self.lv(args[0], env).get() if _strip(args[0]).get("lv") else self.ev(args[0], env)
             i = self.ev(args[1], env)
+            if isinstance(b, MapVal):
+                if isinstance(i, bool):
+                    i = int(i)
+                if i not in b.d:
+                    b.d[i] = self.default_value(b.vtype) if b.vtype else UNINIT
+                    b.touch()
+                r = MapRef(b, i)
+                return r if want_ref else r.get()
             if isinstance(b, Vec) and isinstance(i, int):
                 r = ElemRef(b, i)
                 return r if want_ref else r.get()
@@ -1486,6 +1574,29 @@ def vcopy(v, t):
 def _is_copy_construct(n):
     n = _strip(n)
     return n is not None and n.get("k") in ("CXXConstructExpr", "CXXTemporaryObjectExpr")
+
+
+def _second_targ(t):
+    i = t.find("<")
+    if i < 0:
+        return None
+    depth = 0
+    cur = ""
+    parts = []
+    for ch in t[i + 1:]:
+        if ch == "<":
+            depth += 1
+        elif ch == ">":
+            if depth == 0:
+                break
+            depth -= 1
+        if ch == "," and depth == 0:
+            parts.append(cur.strip())
+            cur = ""
+        else:
+            cur += ch
+    parts.append(cur.strip())
+    return parts[1] if len(parts) > 1 else None
 
 
 def _first_targ(t):
